@@ -18,6 +18,11 @@ namespace mfuse
         if (arc.Loading())
         {
             arc.ArchiveUInt32(num);
+            if (num > arc.GetRemainingSize())
+            {
+                // every element takes at least one byte of the stream: do not allocate on the say-so of a damaged count
+                throw ArchiveErrors::ReadStreamFail();
+            }
             container.SetNumObjects(num);
         }
         else
